@@ -24,15 +24,23 @@ From YP Require Import Searches Mutate Create.
 
 (* [embeds d d']: the old document is embedded in the new one - every node of d
    is still there, at its place, with its identity, anchor, tag and scalar
-   value; containers may only have gained children AFTER the ones they had. *)
-Inductive embeds : node -> node -> Prop :=
-  | emb_leaf : forall i v, embeds (NLeaf i v) (NLeaf i v)
-  | emb_map : forall i kvs kvs' new,
-      Forall2 (fun kv kv' => fst kv' = fst kv /\ embeds (snd kv) (snd kv')) kvs kvs' ->
-      embeds (NMap i kvs) (NMap i (kvs' ++ new))
-  | emb_seq : forall i els els' new,
-      Forall2 embeds els els' -> embeds (NSeq i els) (NSeq i (els' ++ new))
-  | emb_set : forall i els new, embeds (NSet i els) (NSet i (els ++ new)).
+   value; containers may only have gained children AFTER the ones they had.
+   [embeds_g (Some lo)] is the same relation with one more clause: a NULL may
+   have been replaced by a NEW container (an object whose identity is >= lo,
+   i.e. one the old document did not hold).  That is what the creation of a
+   tail beneath a null does since fix 09e1e7a (a null is "no value yet");
+   [embeds_g None] = [embeds] has no such clause. *)
+Inductive embeds_g : option N -> node -> node -> Prop :=
+  | emb_leaf : forall fr i v, embeds_g fr (NLeaf i v) (NLeaf i v)
+  | emb_map : forall fr i kvs kvs' new,
+      Forall2 (fun kv kv' => fst kv' = fst kv /\ embeds_g fr (snd kv) (snd kv')) kvs kvs' ->
+      embeds_g fr (NMap i kvs) (NMap i (kvs' ++ new))
+  | emb_seq : forall fr i els els' new,
+      Forall2 (embeds_g fr) els els' -> embeds_g fr (NSeq i els) (NSeq i (els' ++ new))
+  | emb_set : forall fr i els new, embeds_g fr (NSet i els) (NSet i (els ++ new))
+  | emb_null : forall lo i c,
+      is_leaf c = false -> (lo <= node_oid c)%N -> embeds_g (Some lo) (NLeaf i PNone) c.
+Notation embeds := (embeds_g None).
 
 (* How one segment of a straight path is read at a node (the Doc.ref it
    denotes): a key of a mapping, an index of a sequence (a key spelled like an
@@ -67,9 +75,10 @@ Fixpoint resolve (n : node) (segs : list seg) : option node :=
   end.
 
 (* GUARD of the creation theorems: something is to be created (the path does
-   not exist completely), the existing prefix does not run into a null (known
-   finding F10b) and the missing tail does not start below a set (known finding
-   F25: the value of a set member is the member itself). *)
+   not exist completely) and the missing tail does not start below a set (known
+   finding F25: the value of a set member is the member itself).  A null with
+   segments still to go is a place where the tail is missing (fix 09e1e7a; the
+   guard used to exclude it: finding F10b). *)
 Definition is_null (n : node) : bool := match n with NLeaf _ PNone => true | _ => false end.
 
 Fixpoint creates (n : node) (segs : list seg) : bool :=
@@ -77,8 +86,20 @@ Fixpoint creates (n : node) (segs : list seg) : bool :=
   | [] => false
   | s :: rest =>
       match seg_child n s with
-      | Some c => negb (is_null c) && creates c rest
+      | Some c => if is_null c then (match rest with [] => false | _ :: _ => true end) else creates c rest
       | None => negb (is_set n)
+      end
+  end.
+
+(* the existing prefix of the path ends at a null and segments are still to go:
+   the one situation in which a pre-existing node - that null - is replaced *)
+Fixpoint null_prefix (n : node) (segs : list seg) : bool :=
+  match segs with
+  | [] => false
+  | s :: rest =>
+      match seg_child n s with
+      | Some c => if is_null c then (match rest with [] => false | _ :: _ => true end) else null_prefix c rest
+      | None => false
       end
   end.
 
